@@ -39,7 +39,7 @@ func c30(r *Run) {
 	r.rule("C30.R1", "K12", "ExecuteActions: every view = (union of all declared keys as in a transaction, storage filled from VM state by read error), same actor/action ID/time/rules as declared", 10)
 	r.rule("C30.R2", "K1", "ExecuteActions: commit after each successful action; outputs appended in order; read errors returned; action limit enforced", 5)
 	r.rule("C30.R3", "K1", "SimulateActions: recording scope given to the view over current state; keys copied after Execute and before clear; cleared per action", 7)
-	r.rule("C30.R4", "K6", "SimulatedKeys.Has records (union) and grants; Keys.Add unions permissions", 3)
+	r.rule("C30.R4", "K6", "SimulatedKeys.Has records (union) and grants exactly what it recorded; Keys.Add unions permissions", 3)
 
 	ex := r.fn(w, "C30.R1", nmRPC+"ExecuteActions")
 	if ex != nil {
@@ -239,8 +239,10 @@ func c30(r *Run) {
 	has := r.fn(w, "C30.R4", "("+pkgState+".SimulatedKeys).Has")
 	if has != nil {
 		r.requireEffect(w, "C30.R4", "SimulatedKeys.Has:records-requested-permission", has, "call (state.Keys).Add(p0, string(p1), p2)")
+		// grants exactly the accesses it recorded: what is reported is then sufficient, and a key no transaction
+		// could declare is refused as the transaction's scope would refuse it
 		outs := returnOutcomes(has)
-		r.check(len(outs) == 1 && len(outs[0].Vals) == 1 && term(outs[0].Vals[0]) == "true", "C30.R4", "SimulatedKeys.Has:grants", w.rel(has.Pos()), "", "the recording scope does not grant every access")
+		r.check(len(outs) == 1 && len(outs[0].Vals) == 1 && term(outs[0].Vals[0]) == "(state.Keys).Add(p0, string(p1), p2)", "C30.R4", "SimulatedKeys.Has:grants-iff-recorded", w.rel(has.Pos()), "", "the recording scope does not grant exactly the accesses it records (granting an access it cannot record makes the reported key set insufficient; refusing a recorded one fails a valid simulation)")
 	}
 	add := r.fn(w, "C30.R4", "("+pkgState+".Keys).Add")
 	if add != nil {
